@@ -54,13 +54,19 @@ class Feeder:
         return ln
 
 
+def _pclass(parts):
+    """category() only tells ' ' and '#' from anything else; join() only asks parts[0] == ' '"""
+    return tuple(p if p in (" ", "#") else "x" for p in parts)
+
+
 def _snap(frame):
     try:
         loc = frame.f_locals
         cleaner = loc["cleaner"]
         cur = loc["curr_line"]
         ll = cur.current_logical_line
-        return ((tuple(cleaner.state), ll.category(), bool(ll.trailing_space), bool(cur.lines)), list(cur.lines))
+        # category() reads parts[:2] and len(parts)==1, join() reads parts[0] and trailing_space: that is the abstraction
+        return ((tuple(cleaner.state), ll.category(), bool(ll.trailing_space), bool(cur.lines), _pclass(ll.parts[:2]), min(len(ll.parts), 3)), list(cur.lines))
     except Exception:
         return (None, None)
 
